@@ -457,5 +457,25 @@ PROPS['C20'] = Prop(
                  'object storage is pre-filled with symbolic bytes (vf_havoc) before construction in the cells marked so: a result depending on prior memory is found by the solver'])
 PROPS['C20'].note = 'The compiler dimension (g++ vs clang++, unspecified evaluation order) is covered by witness replay on native g++/clang++ builds, not by a solver verdict.'
 
+# ---- thorough-tier counterparts of the runs added in the last session (deeper bounds of the same harness modes; quick lists untouched)
+def _more(pid, runs): PROPS[pid].thorough = list(PROPS[pid].thorough) + runs
+_more('C03', [Run('spinlock_callbacklist_t2_r3_p3', 'spinlock.cpp', {'LOCKKIND': 2, 'TT': 2, 'RR': 3}, preempt=3, covers=2, mt=True, native=(), linetables=True, budget_s=1700, bounds='CallbackList under GeneralThreading<SpinLock>: 2 threads x (3 appends + remove of the first), P<=3'),
+              _lk('spinlock_t3_r2_p4', 0, 3, 2, 4, 'eventpp::SpinLock (real code)', budget_s=1700)])
+_more('C05', [Run('q_history_dtor_enqueue_k3', 'q_history.cpp', {'KK': 3, 'RA': 0, 'PAYLOAD': 1, 'INIT_MAX': 2, 'DTORENQ': None}, covers=14, optional_covers=(0, 1, 2, 3, 4, 5, 6, 7, 8, 9, 10, 11, 12), budget_s=1700,
+                  bounds='argument type whose destructor enqueues into the same queue: K=3 steps from every quiescent state with <= 2 pending events and <= 2 recycled slots')])
+_more('C06', _LKQUEUE + [_DTORQ, Run('spinlock_queue_t3_r2_p3', 'spinlock.cpp', {'LOCKKIND': 3, 'TT': 3, 'RR': 2}, preempt=3, covers=2, mt=True, native=(), linetables=True, budget_s=1700, bounds='EventQueue under GeneralThreading<SpinLock>: 2 producers x 2 enqueues + 1 consumer, P<=3')])
+_more('C09', _FTTH + [_FTOQ, _FTAD,
+              Run('faults_anydata_f2', 'faults.cpp', {'CLASS': 4}, exc=True, own_new=True, faults=2, covers=6, optional_covers=(1, 3, 5), native=('clang-O1-san', 'clang-O1'), budget_s=1700, bounds='AnyData under faults, F=2 (a failed copy, then a failed move)'),
+              Run('faults_ordered_queue_f2', 'faults.cpp', {'CLASS': 5}, exc=True, own_new=True, faults=2, covers=6, optional_covers=(1, 2, 3, 5), native=('clang-O1-san', 'clang-O1'), budget_s=1700, bounds='ordered queue with a throwing Event comparison, F=2'),
+              Run('faults_cl_threads_p5', 'cl_threads_fault.cpp', {'DISP': 0}, exc=True, faults=1, preempt=5, covers=2, mt=True, native=(), budget_s=1700, bounds='C09 x C03 on a CallbackList, P<=5'),
+              Run('faults_disp_threads_p4', 'cl_threads_fault.cpp', {'DISP': 1}, exc=True, faults=1, preempt=4, covers=2, mt=True, native=(), budget_s=1700, bounds='C09 x C03 through an EventDispatcher, P<=4')])
+_more('C10', [Run('copymove_disp_filters_k3', 'copymove.cpp', {'KK': 3, 'OBJ': 1, 'FILTERS': None}, covers=12, optional_covers=(8, 9, 10), budget_s=1700, bounds='EventDispatcher with MixinFilter, K=3 (see quick)'),
+              Run('copymove_queue_filters_k3', 'copymove.cpp', {'KK': 3, 'OBJ': 2, 'FILTERS': None}, covers=12, optional_covers=(8,), budget_s=1700, bounds='EventQueue with MixinFilter, K=3 (see quick)')])
+_more('C11', [_DQNV])
+_more('C12', [r for r in PROPS['C12'].quick if r.name.startswith('argument_adapter_')])
+_more('C15', [Run('scoped_disp_equiv_k3', 'scoped.cpp', {'KK': 3, 'TK': 1, 'EQUIV': None}, covers=8, optional_covers=(0, 1, 2, 3, 4, 5, 6, 7), budget_s=1700, bounds=_SR_BOUNDS % ('EventDispatcher with a Map policy whose key equivalence is coarser than operator== of the event type', 3))])
+_more('C16', [r for r in PROPS['C16'].quick if r.name == 'counter_under_faults'])
+_more('C20', _C20LK)
+
 HOOK_COMMITS = []
 EBMC_PROPS = ['C12', 'C16', 'C18']
